@@ -715,7 +715,8 @@ class FCtx(object):
                     if func[2] not in lk[0].staticmethods:
                         first = func[1]
                     # a method overridden in a subclass is dispatched dynamically: do not inline
-                    if any(func[2] in c.methods and c is not lk[0] for c in model.subclasses(fref.cls)):
+                    # (unless the analysis is about instances of exactly this class: FuncRef.exact)
+                    if any(func[2] in c.methods and c is not lk[0] for c in model.subclasses(fref.cls)) and not getattr(fref, "exact", False):
                         target = None
             via_super = False
             if func[0] == "attr" and func[1][0] == "call" and func[1][1] == ("global", "super") and fref.cls is not None \
@@ -755,9 +756,10 @@ class FCtx(object):
     def get(cls, model, fref):
         # (kept on the model: a long-lived process analysing many trees must not keep every tree it ever saw)
         cache = model.__dict__.setdefault("_fctx_cache", {})
-        if fref not in cache:
-            cache[fref] = FCtx(model, fref)
-        return cache[fref]
+        key = (fref, bool(getattr(fref, "exact", False)))
+        if key not in cache:
+            cache[key] = FCtx(model, fref)
+        return cache[key]
 
     @property
     def qname(self):
@@ -1597,6 +1599,9 @@ def emit_raw(e):
 
 def writer_emits(model, fref, out_index=1):
     """everything a writer puts into its output parameter: [Emit]"""
+    if fref.cls is not None and not getattr(fref, "exact", False):
+        # "the writer of class K": calls on self dispatch to what K sees (a hook method a subclass overrides is K's own here)
+        fref = FuncRef(fref.module, fref.cls, fref.node, exact=True)
     cx = fctx(model, fref)
     if len(cx.params) <= out_index:
         raise AnalysisError("%s has no output parameter" % fref.qname)
